@@ -122,7 +122,8 @@ def make_graders(rng, extra):
         answers=[answers, ('x', {'expect': 'y', 'grade_decimal': 0.25}), 'z'],
         subgraders=StringGrader(), ordered=ordered, **cfg),
         [['full', 'x', 'z'], ['half', 'y', 'z'], ['zero', 'q', 'q'], ['q', 'q', 'q'],
-         ['z', 'third', 'x'], ['tiny', 'tiny', 'tiny'], ['pinned', 'y', 'w'], ['pinnedf', 'x', 'q']]))
+         ['z', 'third', 'x'], ['tiny', 'tiny', 'tiny'], ['pinned', 'y', 'w'], ['pinnedf', 'x', 'q'],
+         ['wrong', 'x', 'z'], ['', 'y', 'z'], ['full', 'wrong', 'z'], ['q', 'q', 'z']]))      # (wrong boxes BEFORE credited ones)
     # debug output is appended AFTER the note: the note must survive it (messages are compared without the log)
     out.append(('ListDebug', lambda cfg: ListGrader(
         answers=[answers, ('x', {'expect': 'y', 'grade_decimal': 0.25}), 'z'],
@@ -337,14 +338,16 @@ def run(ctx):
         ('Geometric(0)', lambda: GeometricCredit(factor=0)),
         ('Geometric(0.99)', lambda: GeometricCredit(factor=0.99)),
         ('Geometric(0.5)', lambda: GeometricCredit(factor=0.5)),            # 0.0002 at attempt 13, 0.0001 at attempt 14
-        ('author:tiny', lambda: (lambda n: 1 if n < 2 else 0.0003)),        # tiny but not zero: grades stay positive, ok stays 'partial'
+        ('author:tiny', lambda: (lambda n: 1 if n < 2 else 0.0003)),
+        ('author:0.57', lambda: (lambda n: 1 if n < 2 else 0.57)), ('author:0.29', lambda: (lambda n: 1 if n < 2 else 0.29)),
+        ('author:0.0499', lambda: (lambda n: 1 if n < 2 else 0.0499)), ('author:0.1999', lambda: (lambda n: 1 if n < 2 else 0.1999)),        # tiny but not zero: grades stay positive, ok stays 'partial'
         ('Reciprocal', lambda: ReciprocalCredit()),
         ('author:int', lambda: (lambda n: 1 if n < 3 else 0)),
         ('author:float', lambda: (lambda n: 1.0 if n < 2 else 0.3333333)),
         ('author:const', lambda: (lambda n: 0.5)),
         ('author:rounds_to_1', lambda: (lambda n: 0.99996)),
     ]
-    attempts = [1, 2, 3, 4, 5, 6, 7, 10, 13, 14, 50, 200, 0, -1, -5, None]      # (13, 14: geometric credits of 1e-4 .. 5e-4)
+    attempts = [1, 2, 3, 4, 5, 6, 7, 10, 13, 14, 50, 51, 101, 200, 0, -1, -5, None]      # (13, 14: geometric credits of 1e-4 .. 5e-4)
     graders = make_graders(rng, None)
     combos = []
     for gi, (desc, build, inputs) in enumerate(graders):
